@@ -24,8 +24,8 @@ type FakeConn struct {
 	Deadlines []time.Time
 	Reads     int
 	OnWrite   func(total int) // called once after a Write has delivered its bytes to the client (no lock held)
-	Block     bool // with no chunk left, Read waits for Feed instead of reporting Fin
-	Waiting   int  // readers currently waiting
+	Block     bool            // with no chunk left, Read waits for Feed instead of reporting Fin
+	Waiting   int             // readers currently waiting
 	cond      *sync.Cond
 }
 
